@@ -11,8 +11,18 @@ mkdir -p build/bin coq/Gen
 for spec in go2v/*.json; do ./build/bin/go2v /repo $spec; done
 # full clean .vo build of the whole Coq development
 ( cd coq && rm -f _CoqProject Makefile Makefile.conf && find . -name '*.vo' -o -name '*.vok' -o -name '*.vos' -o -name '*.glob' -o -name '.*.aux' | xargs -r rm -f )
-./scripts/coqbuild.sh > build/coq-setup.log 2>&1 || { tail -40 build/coq-setup.log; echo "coq build failed" >&2; exit 1; }
+# build the Props target (and thereby model + proofs) of every claimed check; files of
+# properties still under construction are not part of the claimed development
+TARGETS=$(python3 -c "
+import json
+for i in open('checks/ENABLED').read().split():
+    c=json.load(open('checks/%s.json'%i)); print(c['props'][:-2]+'.vo', c['model'][:-2]+'.vo')
+" | tr '\n' ' ')
+./scripts/coqbuild.sh $TARGETS > build/coq-setup.log 2>&1 || { tail -40 build/coq-setup.log; echo "coq build failed" >&2; exit 1; }
 # warm the go build cache: build every driver once (with hooks on)
 mkdir -p build/bin
-( cd harness && for d in cmd/*/; do n=$(basename $d); go build -tags verif -o ../build/bin/$n ./cmd/$n || exit 1; done )
+DRIVERS=$(python3 -c "
+import json
+print(' '.join(sorted({json.load(open('checks/%s.json'%i))['driver'] for i in open('checks/ENABLED').read().split()})))")
+( cd harness && for n in $DRIVERS; do go build -tags verif -o ../build/bin/$n ./cmd/$n || exit 1; done )
 echo setup ok
